@@ -349,12 +349,16 @@ def seg_seq(kind, ln):
         return "C" * (ln // 2) + "A" * (ln - ln // 2)
     if kind == "T+C":
         return "T" * (ln // 2) + "C" * (ln - ln // 2)
+    if kind == "Ca":       # mostly transcript, a few A at the end (a tail that begins near the end of the exon)
+        return "C" * (ln - ln // 6) + "A" * (ln // 6)
+    if kind == "tC":
+        return "T" * (ln // 6) + "C" * (ln - ln // 6)
     raise ValueError(kind)
 
 
 def structured_reads(tier):
     lens = (3, 12, 33) if tier == "quick" else (3, 8, 12, 16, 33, 40)
-    kinds = ("C", "A", "T", "T+A", "C+A", "T+C") if tier == "quick" else ("C", "A", "T", "AT", "TA", "T+A", "A+T", "C+A", "T+C")
+    kinds = ("C", "A", "T", "T+A", "C+A", "T+C", "Ca", "tC") if tier == "quick" else ("C", "A", "T", "AT", "TA", "T+A", "A+T", "C+A", "T+C", "Ca", "tC")
     clips = (("", 0), ("A", 20), ("T", 20)) if tier == "quick" else (("", 0), ("A", 20), ("T", 20), ("C", 20), ("A", 8))
     intron = 50
     for nex in (2, 3):
@@ -455,6 +459,21 @@ def check_trim_real(specs):
             err = trimming_oracle(exons, ai, info0, strict_internal=False)
             if err:
                 bad.append((spec, max_fake, err + " polya_info(ea,et,ia,it)=%s" % (info0,)))
+            # "removing terminal exons that consist of an aligned polyA/polyT tail": a removed exon lies beyond the tail position or holds
+            # it - and then the transcript bases in front of the position are the smaller part of the exon (the code asks for less than
+            # a third, less than half + 4 is demanded here; positions are taken with their +-1 conventions)
+            kept = list(ai.read_exons)
+            if len(kept) < len(exons):
+                for ex_ in exons:
+                    if ex_ in kept:
+                        continue
+                    ln_ = ex_[1] - ex_[0] + 1
+                    if info0[2] != -1 and ex_[0] <= info0[2] <= ex_[1] + 1 and ex_[0] > kept[-1][1] and info0[2] - ex_[0] > ln_ // 2 + 4:
+                        bad.append((spec, max_fake, "removed-exon-not-tail: terminal exon %s was removed as aligned polyA although the tail begins at "
+                                    "%d: %d of its %d bases lie in front of the tail" % (ex_, info0[2], info0[2] - ex_[0], ln_)))
+                    if info0[3] != -1 and ex_[0] - 1 <= info0[3] <= ex_[1] and ex_[1] < kept[0][0] and ex_[1] - info0[3] > ln_ // 2 + 4:
+                        bad.append((spec, max_fake, "removed-exon-not-tail: terminal exon %s was removed as aligned polyT although the head ends at "
+                                    "%d: %d of its %d bases lie behind the head" % (ex_, info0[3], ex_[1] - info0[3], ln_)))
             if max_fake == 40 and spec[2][1] == 0 and spec[1][0] not in ("A", "AT", "A+T") and sum(spec[0]) >= 17:
                 # the tail detector looks at the 3' end of the read: the same read with its first exon prolonged upstream by 64 non-A
                 # bases (no head clip, so that the examined stretch of a short read holds nothing else) reports the same tail positions
